@@ -46,9 +46,19 @@ def make_replay(pid, case, sched, outcome, P, info, minimised, log=None):
             "fired": sim.fired if sim is not None else []}
 
 
-def report_violation(pid, P, case, sched, outcome, info, outdir, tag, do_min=True):
+def report_violation(pid, P, case, sched, outcome, info, outdir, tag, do_min=True, prelude=()):
     cls = outcome["violation"]["class"]
     orig = make_replay(pid, case, sched, outcome, P, info, False)
+    if prelude:
+        # does the failure need the calls this process made before?  re-run the case alone first
+        again = run_case(case, {k: v for k, v in sched.items() if k != "replay"}, P.compare)
+        if again["status"] == "violation" and again["violation"]["class"] == cls:
+            prelude = ()
+        else:
+            orig["prelude"] = [{"case": c, "sched": {k: v for k, v in s.items() if k != "replay"}} for c, s in prelude]
+            orig["note"] = ("the violation did not reproduce when the case was re-run alone in the same process: it "
+                            "depends on the cases executed before it, which are recorded as 'prelude' and replayed first")
+            do_min = False
     os.makedirs(outdir, exist_ok=True)
     p_orig = os.path.join(outdir, "%s-%s.orig.json" % (pid, tag))
     util.dump_file(p_orig, orig)
@@ -105,6 +115,9 @@ def main(argv=None):
     trace_nk = hashlib.sha256()
     known = findings.load()
     known_hits = collections.Counter()
+    threads_done = set()
+    recent = collections.deque(maxlen=2)     # last cases this process executed (prelude of a replay)
+    recent_op = collections.defaultdict(lambda: collections.deque(maxlen=2))   # ... and the last of the same op
     i = -1
     last_i = -1
     while True:
@@ -134,6 +147,13 @@ def main(argv=None):
         base_case = case
         r = frng.random()
         want_fault = r < P.fault_rate
+        if frng.random() < P.fault_rate / 2:
+            # "blind" abort: the faulted execution comes FIRST, without a clean run of this case before it
+            # (so whatever state the previous cases left in the process is what the retry meets); the
+            # step is drawn without knowing the graph size and may lie beyond it (then nothing fires)
+            k = int(frng.expovariate(1 / 10.0))
+            kind = frng.choice(["abort_before", "abort_after"])
+            plan.insert(0, (case, dict(sched, faults=[{"kind": kind, "step": k}], blind=True)))
         want_probe = (not want_fault) and r < P.fault_rate + 0.04
         for rk, rv in P.reach(case).items():
             if rv:
@@ -143,7 +163,8 @@ def main(argv=None):
             case, s = plan.pop(0)
             probe = bool(s.get("reexec_rate"))
             o = run_case(case, s, P.compare, want=want, m1=True)
-            run_no += 1
+            if not s.get("blind"):
+                run_no += 1
             sim = o.get("sim")
             C["evaluations"] += 1
             by_op[case["op"]] += 1
@@ -189,12 +210,44 @@ def main(argv=None):
                 if seen_sigs[key] <= 1 and nviol < a.max_violations:
                     nviol += 1
                     path, rep = report_violation(a.prop, P, case, s, o, dict(info, run=i), a.outdir,
-                                                 "s%d-r%d" % (a.seed, i))
+                                                 "s%d-r%d" % (a.seed, i),
+                                                 prelude=[x for x in list(recent_op[case["op"]]) + list(recent)
+                                                          if x[0] is not case][:4])
                     emit({"t": "violation", "run": i, "replay": path, "signature": rep["signature"],
                           "violation": rep["violation"], "op": case["op"]})
                 else:
                     emit({"t": "violation_dup", "run": i, "signature": sig})
                 break
+            if s.get("blind"):
+                reach["blind_abort_runs"] += 1
+                continue
+            if run_no == 1:
+                recent.append((case, dict(s)))
+                recent_op[case["op"]].append((case, dict(s)))
+            if sim.mutations and any(m.get("in_task_definition") for m in sim.mutations) \
+                    and case["op"] not in threads_done and o["status"] == "ok":
+                # M1: a task wrote to an array that lives in the task definition, i.e. is shared by every
+                # block task.  Atomic-task simulation cannot interleave two compiled kernels: fall back to
+                # the labelled real-thread differential (observation, not simulation) for this op.
+                threads_done.add(case["op"])
+                from . import realthreads
+                found, tinfo = realthreads.dask_threads_differential(case, P.compare)
+                C["real_thread_differentials"] += 1
+                notes["probe=task-writes-shared-definition-array op=%s" % case["op"]] += 1
+                if found is not None:
+                    v, big = found
+                    sig = P.signature(big, v)
+                    if findings.match(known, a.prop, sig) is None and nviol < a.max_violations:
+                        nviol += 1
+                        os.makedirs(a.outdir, exist_ok=True)
+                        path = os.path.join(a.outdir, "%s-s%d-r%d-threads.json" % (a.prop, a.seed, i))
+                        util.dump_file(path, {"property": a.prop, "engine": "real_threads", "case": big,
+                                              "workers": 16, "violation": v, "signature": sig,
+                                              "m1": sim.mutations[:3], "info": dict(info, run=i),
+                                              "note": "real dask.threaded executions, not simulation; replay repeats "
+                                                      "the threaded compute up to 30 times"})
+                        emit({"t": "violation", "run": i, "replay": path, "signature": sig, "violation": v,
+                              "op": case["op"]})
             if run_no == 1 and want_fault and sim.step > 0:
                 k = frng.randrange(sim.step)
                 kind = frng.choice(["abort_before", "abort_after"])
